@@ -90,6 +90,7 @@ def execute(plan):
     events = 0
     h = hashlib.sha256()
     with World(registry=plan["registry"], bmc="D" if plan.get("bmc") else None) as w:
+        w.long_opts = bool(plan.get("long_opts"))
         if plan.get("bmc"):
             bump("environment:bmc-" + plan["bmc"])
         w.fresh_per_run = bool(plan.get("fresh"))
